@@ -1155,6 +1155,38 @@ impl<'a> World<'a> {
         }
         match r {
             Err(msg) => {
+                if hard {
+                    // round 13: the same reader object tries once more, fault-free. Only a normal return is
+                    // judged (a reader that refuses again is discarded as before): a read that returns
+                    // normally from an acknowledged, intact file must reproduce it whatever failed earlier.
+                    self.disk.borrow_mut().begin_op(&[]);
+                    let rr = match target_slot {
+                        Some(s) => {
+                            let mesh = &mut self.pool[s].as_mut().unwrap().mesh;
+                            catch(|| mesh.read(&p))
+                        }
+                        None => match fresh.as_mut() {
+                            Some(mesh) => catch(|| mesh.read(&p)),
+                            None => Err(String::new()),
+                        },
+                    };
+                    self.disk.borrow_mut().end_op();
+                    if rr.is_ok() {
+                        self.stats.count("probe.read_retried_after_hard_fault.returned");
+                        let what = format!("second, fault-free read by the same {}-node reader whose first read was refused after a hard fault", before_nodes);
+                        match target_slot {
+                            Some(s) => {
+                                let l = self.pool[s].as_ref().unwrap();
+                                self.compare_read(&l.mesh, &file, &what, "wrong-data-after-fault")?;
+                            }
+                            None => {
+                                self.compare_read(fresh.as_ref().unwrap(), &file, &what, "wrong-data-after-fault")?;
+                            }
+                        }
+                    } else {
+                        self.stats.count("probe.read_retried_after_hard_fault.refused_again");
+                    }
+                }
                 if let Some(s) = target_slot {
                     // the property does not promise an atomic read: the reader is discarded
                     if s == 0 && self.pool.iter().filter(|x| x.is_some()).count() == 1 {
